@@ -22,10 +22,15 @@ namespace fm = foonathan::memory;
 
 // the guarded hook of src/temporary_allocator.cpp (H1)
 static bool g_trace = std::getenv("VERIF_TRACE") != nullptr;
+namespace ss
+{
+    void note_site(const char* site) noexcept;
+}
 extern "C" void foonathan_memory_verif_yield(const char* site) noexcept
 {
     if (g_trace)
         std::fprintf(stderr, "  [t%d] %s\n", ss::Sched::current_task(), site);
+    ss::note_site(site);
     ss::sim_yield(site);
 }
 
@@ -89,6 +94,9 @@ namespace ss
             std::set<const void*>      freed; // released by its holder and not handed out since
             Shadow                     shadow;
             std::map<int, const void*> pending_free;
+            // scheduler task id -> the stack it is emptying right now (between the hook sites temp.clear.shrink and
+            // temp.clear.mark_free): nobody else may be handed that stack in this window
+            std::map<int, const void*> clearing;
             std::map<int, int>         sched_id, worker_of; // plan worker number <-> scheduler task id
             // acquiring calls in flight: while two overlap, "a stack was free during the whole call" cannot be
             // decided from outside (the other call may be half way through adopting it)
@@ -117,6 +125,32 @@ namespace ss
             }
         };
         Model* g_model = nullptr;
+    } // namespace
+    void note_site(const char* site) noexcept
+    {
+        if (!g_model || !site)
+            return;
+        int id = Sched::current_task();
+        if (id < 0)
+            return;
+        auto& m = *g_model;
+        if (!std::strcmp(site, "temp.clear.shrink"))
+        {
+            // which stack: the one this task is giving back (or still holds)
+            int w = m.worker_of.count(id) ? m.worker_of[id] : id;
+            const void* st = nullptr;
+            if (m.pending_free.count(w))
+                st = m.pending_free[w];
+            else if (m.holds.count(w))
+                st = m.holds[w];
+            if (st)
+                m.clearing[id] = st;
+        }
+        else if (!std::strcmp(site, "temp.clear.mark_free"))
+            m.clearing.erase(id);
+    }
+    namespace
+    {
 
         // called whenever the API returned stack `s` to task `t`; free_before: model's free set before the call
         void handed(int t, fm::temporary_stack& s, const std::set<const void*>& free_before, const char* via,
@@ -126,6 +160,11 @@ namespace ss
             auto  p = static_cast<const void*>(&s);
             if (g_trace)
                 std::fprintf(stderr, "HANDED w%d %p via %s (new=%d alone=%d acquiring=%d)\n", t, p, via, int(!m.seen.count(p)), int(alone), m.acquiring);
+            for (auto& kv : m.clearing)
+                if (kv.second == p && (!m.sched_id.count(t) || m.sched_id[t] != kv.first))
+                    m.fail("shared_stack", std::string(via) + ": task " + std::to_string(t)
+                                               + " was handed a temporary stack while its previous user was still "
+                                                 "emptying it (shrink_to_fit in clear())");
             for (auto& kv : m.holds)
                 if (kv.first != t && kv.second == p)
                     m.fail("shared_stack", std::string(via) + ": task " + std::to_string(t)
@@ -186,6 +225,8 @@ namespace ss
             if (!taken)
                 m.freed.insert(it->second);
             m.pending_free.erase(it);
+            if (m.sched_id.count(t))
+                m.clearing.erase(m.sched_id[t]);
         }
 
         struct Scope
